@@ -11,7 +11,7 @@ from dataclasses import dataclass, field, asdict
 from typing import Any, Callable, Dict, List, Optional
 
 ROOT = os.path.dirname(os.path.dirname(os.path.abspath(__file__)))
-EVIDENCE_DIR = os.path.join(ROOT, "evidence")
+EVIDENCE_DIR = os.environ.get("VF_EVIDENCE_DIR") or os.path.join(ROOT, "evidence")   # (override: runs against seeded changes must not touch the committed evidence)
 REPLAY_DIR = os.path.join(EVIDENCE_DIR, "replays")
 WORK_ROOT = os.path.join(ROOT, ".work")
 KNOWN_FINDINGS = os.path.join(ROOT, "known_findings.json")
